@@ -73,6 +73,20 @@ def build_cases(scratch, rnd, tier):
                 c = dict(s)
                 c.update(shape=shape, code=5, det=0, wait=True)   # the backend speaks first, the client waits for it
                 cases.append(c)
+    for c in cases:
+        c.update(gzip=False, rsize=0, qsize=0, qat=0)
+    # a compressing client: replies of every small size (the gzip form of a short or random message is larger than the
+    # message, so buffers regrow), unary and streamed
+    sizes = list(range(1, 140, 3)) + [250, 255, 256, 257, 500, 510, 1000, 1020, 4090]
+    for rs in (sizes if tier != "quick" else rnd.sample(sizes, 16) + [31, 45, 59, 100, 120]):
+        for shape, n, rj in (("unary", 1, 1), ("sstream", 1, 3), ("bidi", 2, 2)):
+            cases.append(dict(n=n, readN=99, replyJ=rj, failAt="never", mode="batch", failK=0, shape=shape, code=0, det=0, wait=False,
+                              gzip=True, rsize=rs, qsize=0, qat=0))
+    # a request of exactly the default receive limit (4 MiB), and one byte less: first and second message
+    for qs in (4194303, 4194304):
+        for shape, n, qat in (("unary", 1, 1), ("cstream", 1, 1), ("cstream", 3, 2)):
+            cases.append(dict(n=n, readN=99, replyJ=1, failAt="never", mode="batch", failK=0, shape=shape, code=0, det=0, wait=False,
+                              gzip=False, rsize=0, qsize=qs, qat=qat))
     for i, c in enumerate(cases):
         c["id"] = i + 1
     return cases
@@ -112,6 +126,42 @@ def intercept_violations(prop, tier, scratch, harness, seed):
                         what="%s: proxied %s %s n=%d -> interceptor calls=%d saw recv=%d send=%d; backend got %s, client replies %s" % (
                             formula, s["shape"], s["mode"], s["n"], v["icalls"], v["irecv"], v["isend"], v["bgot"], v["replies"]))
     return out, rep["stat"].get("calls", 0)
+
+
+def status_violations(prop, tier, scratch, harness, seed):
+    """C05 on the proxy path: the handler that returns the status is a backend behind RegisterConn; the client of the
+    front (gRPC and HTTP/JSON) must see the same code, message and details as a direct client."""
+    rnd = random.Random(seed + 5)
+    cases = [c for c in build_cases(scratch, rnd, tier) if not c["wait"] and (c["failAt"] != "never" or c["failK"] != 0)]
+    cpath, trace = scratch.path("scases.jsonl"), scratch.path("strace.ndjson")
+    with open(cpath, "w") as f:
+        for c in cases:
+            f.write(json.dumps(c) + "\n")
+    p, _ = C.run([harness, "proxy", "-cases", cpath, "-out", trace, "-seed", str(seed)], timeout=3000)
+    if p.returncode != 0:
+        raise C.Infra("proxy driver failed:\n" + p.stdout[-3000:])
+    by_id = {c["id"]: c for c in cases}
+    out = {}
+    n = 0
+    for line in open(trace):
+        ev = json.loads(line)
+        n += 1
+        s, d = ev["s"], ev["direct"]
+        if ev["crash"] or d["hang"] or d["bcalls"] != 1:
+            continue
+        for front, v in (("grpc", ev["proxied"]), ("http", ev["http"] if ev["hashttp"] else None)):
+            if v is None or v["hang"] or v["bcalls"] != 1:
+                continue      # (zero-message scripts never reach the backend through the front: C10's known finding)
+            if (v["code"], v["msgequal"], v["detequal"]) != (d["code"], d["msgequal"], d["detequal"]):
+                key = ("StatusFidelityProxied", front, s["shape"], d["code"] == 1)
+                if key in out:
+                    out[key]["more"] += 1
+                    continue
+                out[key] = dict(property=prop, formula="StatusFidelity", seed=seed, cases=[by_id[s["id"]]], observed=ev, more=0, replay_driver="proxy",
+                                signature=dict(module="Proxy", formula="StatusFidelityProxied", shape=s["shape"], front=front),
+                                what="StatusFidelity on the proxy path: %s %s backend ends with code %d (%s): direct client sees code %d message-equal %s details-equal %s, %s front sees code %d message-equal %s details-equal %s" % (
+                                    s["shape"], s["mode"], s["code"], s["failAt"], d["code"], d["msgequal"], d["detequal"], front, v["code"], v["msgequal"], v["detequal"]))
+    return out, n
 
 
 def hang_violations(prop, tier, scratch, harness, seed, only_cases=None):
